@@ -14,11 +14,12 @@
 (* Generation (Gen = TRUE): hist carries the steps; breadth-first with Emit = "each" prints every *)
 (* history when it is extended by a call, simulation with Emit = "end" prints histories of        *)
 (* MaxSteps steps.  Stride thins the enumeration deterministically: plan number i is taken from   *)
-(* operand pair (x, shape) iff (Weight(x) * 5 + 11 * shape number + i) % Stride = 0.              *)
+(* operand pair (x, shape) iff (61 * (5 * Weight(x) + 11 * shape number) + 7 * i) % Stride = 0             *)
 EXTENDS JoinMech, TLC, Json
 CONSTANTS MaxRows,      \* rows of X
           MaxRowsY,     \* rows of the unrelated table (shape "distinct")
           MaxSteps,     \* steps of a history
+          NKeys,        \* size of the universe of key cells of X (<= 6)
           Stride,
           Gen, Emit
 VARIABLES x0,           \* X as it was built
@@ -31,12 +32,12 @@ VARIABLES x0,           \* X as it was built
           hist          \* generator only
 vars == <<x0, x, yd, shape, n, last, out, hist>>
 
-KeyUSeq == <<None, VInt(1), VFlt(1, 1), VInt(2), VNaN(1), VNaN(2)>>
-KeyU == Range(KeyUSeq)
+KeyUSeq == <<VInt(1), VFlt(1, 1), VNaN(1), VNaN(2), None, VInt(2)>>
+KeyU == {KeyUSeq[i] : i \in 1..NKeys}                 \* key cells of X: the first NKeys values
 KIx(v) == CHOOSE i \in 1..Len(KeyUSeq) : KeyUSeq[i] = v
 KeyUY == {VInt(1), VNaN(3)}
 XU == UNION {{[cols |-> XCols, rows |-> [i \in 1..k |-> [a |-> f[i][1], b |-> f[i][2], p |-> VInt(i)]]] : f \in [1..k -> KeyU \X KeyU]} : k \in 0..MaxRows}
-YU == UNION {{[cols |-> YCols, rows |-> [i \in 1..k |-> [a |-> f[i][1], b |-> f[i][2], q |-> VInt(10 + i)]]] : f \in [1..k -> KeyUY \X KeyUY]} : k \in 0..MaxRowsY}
+YU == UNION {{[cols |-> YCols, rows |-> [i \in 1..k |-> [a |-> f[i], b |-> VInt(1), q |-> VInt(10 + i)]]] : f \in [1..k -> KeyUY]} : k \in 0..MaxRowsY}
 EmptyY == [cols |-> YCols, rows |-> <<>>]
 NoStep == [kind |-> "none"]
 NoOut == [kind |-> "none"]
@@ -44,7 +45,13 @@ NoOut == [kind |-> "none"]
 RECURSIVE SumTo(_, _)
 SumTo(f, k) == IF k = 0 THEN 0 ELSE f[k] + SumTo(f, k - 1)
 Weight(t) == SumTo([i \in 1..NRows(t) |-> i * (7 * KIx(t.rows[i].a) + KIx(t.rows[i].b))], NRows(t))
-Pick(i) == ((Weight(x0) * 5) + (11 * ShapeIx(shape)) + i) % Stride = 0
+Base == (Weight(x0) * 5) + (11 * ShapeIx(shape))
+\* the aliased pair is the point of this module: it is sampled four times as densely, the unrelated pair half as densely
+StrideOf == CASE shape = "same" -> IF Stride >= 4 THEN Stride \div 4 ELSE 1
+              [] shape = "dictof" -> IF Stride >= 2 THEN Stride \div 2 ELSE 1
+              [] shape = "distinct" -> Stride * 2
+              [] OTHER -> Stride
+Picked(lo, hi) == LET w == Base * 61  s == StrideOf IN {i \in lo..hi : (w + (i * 7)) % s = 0}
 
 L == LeftVal(x, yd, shape)
 R == RightVal(x, yd, shape)
@@ -58,18 +65,19 @@ Record(step) == IF Gen THEN Append(hist, step) ELSE hist
 Snapshot(h) == [x |-> x0, yd |-> IF shape = "equal" THEN x0 ELSE yd, shape |-> shape, steps |-> h]
 DoCall(p) == /\ n < MaxSteps /\ PlanOK(p, shape)
              /\ last' = p /\ n' = n + 1
-             /\ out' = MechCall(p.op, CallLeft(p, L, R), CallRight(p, L, R), p.lk, p.rk, p.mode, shape = "same")
+             /\ out' = IF Gen THEN NoOut          \* the generator only enumerates; the real code supplies the outcome
+                       ELSE MechCall(p.op, CallLeft(p, L, R), CallRight(p, L, R), p.lk, p.rk, p.mode, shape = "same")
              /\ hist' = Record(p)
              /\ (Gen /\ Emit = "each") => PrintT(ToJson(Snapshot(hist')))
              /\ UNCHANGED <<x0, x, yd, shape>>
-CallJoin     == \E i \in 1..NPlans : Pick(i) /\ LET p == PlanAt(i, L, R) IN p.op = "join" /\ DoCall(p)
-CallXor      == \E i \in 1..NPlans : Pick(i) /\ LET p == PlanAt(i, L, R) IN p.op = "xor" /\ DoCall(p)
-CallLeftJoin == \E i \in 1..NPlans : Pick(i) /\ LET p == PlanAt(i, L, R) IN p.op = "leftjoin" /\ DoCall(p)
+CallJoin     == \E i \in Picked(1, NPlans) : LET p == PlanAt(i, L, R) IN p.op = "join" /\ DoCall(p)
+CallXor      == \E i \in Picked(1, NPlans) : LET p == PlanAt(i, L, R) IN p.op = "xor" /\ DoCall(p)
+CallLeftJoin == \E i \in Picked(1, NPlans) : LET p == PlanAt(i, L, R) IN p.op = "leftjoin" /\ DoCall(p)
 \* in-place edit of one key cell of X: dict.__getitem__(X, c)[i - 1] = v
 Edits == {<<c, i, v>> \in {"a", "b"} \X (1..NRows(x)) \X KeyU : v # x.rows[i][c]}
 EditNo(e) == (IF e[1] = "a" THEN 0 ELSE 1) + (2 * e[2]) + (5 * KIx(e[3]))
 Edit == \E e \in Edits :
-           /\ n < MaxSteps - 1 /\ Pick(300 + EditNo(e))             \* an edit is always followed by at least one call
+           /\ n < MaxSteps - 1 /\ (300 + EditNo(e)) \in Picked(300, 400)             \* an edit is always followed by at least one call
            /\ x' = [x EXCEPT !.rows[e[2]][e[1]] = e[3]]
            /\ last' = [kind |-> "edit", col |-> e[1], row |-> e[2], val |-> e[3]]
            /\ n' = n + 1 /\ out' = NoOut /\ hist' = Record(last')
@@ -82,7 +90,7 @@ Next == CallJoin \/ CallXor \/ CallLeftJoin \/ Edit \/ Finish
 
 \* ---- invariants ----------------------------------------------------------------------------------
 \* the mechanism's outcome of the last call is what the law demands (the verdict of the trace specification)
-MechRefinesLaw == last.kind = "call" =>
+MechRefinesLaw == (last.kind = "call" /\ ~Gen) =>
     CallVerdict(last.op, CallLeft(last, L, R), CallRight(last, L, R), last.lk, last.rk, last.mode, out) = ""
 \* the laws of the statement for every explicit key plan on the current operand pair
 KPs == {k \in 1..Len(KeyPlans) : Len(KeyPlans[k].lk) > 0}
